@@ -1,9 +1,11 @@
 #!/usr/bin/env python3-vt
 """C04 - re-encoding a decoded foreign blob preserves every byte: for EVERY byte string of each length that a real
-2.x from_blob accepts (all bytes symbolic), to_blob(from_blob(b)) has the same payload, modulo the one boolean byte."""
+2.x from_blob accepts (all bytes symbolic), to_blob(from_blob(b)) has the same payload, modulo the one boolean byte.
+Setter half (harness/h_foreign_v2.cpp): a per-field setter of djinterop::track over a track whose stored blobs are foreign
+keeps every entry, flag and trailing byte it does not own."""
 import sys, os
 sys.path.insert(0, os.path.dirname(os.path.abspath(__file__)))
-import common, codec_jobs
+import common, codec_jobs, c04_setters
 from common import Check, run_jobs, TIER
 from lsx import driver
 
@@ -19,12 +21,15 @@ def main():
             jobs.append(dict(harness='h_codec_v2.cpp', ll=ll2, entry='h_reenc_' + kind, params={'len': L}, models=['zlib_identity'], known=ck.known, eng_opts=eo))
     for L in range(lmax + 1, 100 if TIER == 'quick' else 140):
         jobs.append(dict(harness='h_codec_v2.cpp', ll=ll2, entry='h_reenc_beat_data', params={'len': L}, models=['zlib_identity'], known=ck.known, eng_opts=eo))
+    # the setter half: one high-level setter over a track whose stored blobs are foreign (entry counts / flags / trailing data this library never writes)
+    jobs += c04_setters.jobs(ck, TIER)
     rs = run_jobs(jobs)
     ck.add_results(rs)
     if not ck.reach_summary().get('accepted'): ck.machinery.append('vacuity guard: no accepted blob')
     ck.extra['bounds'] = {'payload_length': 'every length 0..%d (beat data up to %d), all bytes symbolic' % (lmax, 99 if TIER == 'quick' else 139),
-                          'outside': 'longer payloads; the setter half of the statement is covered by C06 (each 2.x setter rewrites only its own field of the decoded struct)'}
-    ck.assumptions = ['identity zlib framing']
+                          'setter_half': 'track::%s over a 2.x track holding foreign blobs (10 loops / 10 hot cues with symbolic fields and labels, 2-marker grids, 3 trailing bytes; thorough: also 9 and 3 entries, other label lengths): blobs the setter does not own unchanged, inside its own blob only its field differs' % ', '.join(sorted(c04_setters.OPS.values())),
+                          'outside': 'longer payloads; whole-list setters (set_hot_cues / set_loops / set_beatgrid replace the list by definition); set_waveform'}
+    ck.assumptions = ['identity zlib framing', 'setter half: key/value sqlite3 model (as C01 / C06)']
     ck.trusted = ['clang-14 lowering', 'lsx executor + runtime models', 'z3']
     ck.finish()
 if __name__ == '__main__': main()
